@@ -419,13 +419,17 @@ type server struct {
 	store string
 	// authFail makes App.Auth report an error for the next requests
 	authFail bool
+	client   *storage.Client
 }
 
 var dbCounter int
 
 func newServer(store, user string) *server {
 	dbCounter++
-	dsn := fmt.Sprintf("file:c20_%d_%d?mode=memory&cache=shared", os.Getpid(), dbCounter)
+	return newServerDSN(store, user, fmt.Sprintf("file:c20_%d_%d?mode=memory&cache=shared", os.Getpid(), dbCounter))
+}
+
+func newServerDSN(store, user, dsn string) *server {
 	d, err := db.OpenSQL("sqlite3", dsn)
 	if err != nil {
 		panic(err)
@@ -647,8 +651,11 @@ func (s *server) viaClient(rq *reqSpec) response {
 	if s.srv == nil {
 		s.srv = httptest.NewServer(s.mux)
 	}
-	c := &storage.Client{BaseURL: s.srv.URL}
-	u := c.NewUpload(context.Background())
+	if s.client == nil {
+		// ONE storage.Client serves all uploads of a scenario
+		s.client = &storage.Client{BaseURL: s.srv.URL}
+	}
+	u := s.client.NewUpload(context.Background())
 	for _, p := range rq.parts {
 		w, err := u.CreateFile(p.fname)
 		if err != nil {
@@ -1151,7 +1158,17 @@ func (g *gen) wrap(faulted reqSpec, tags ...string) *scenario {
 	}
 	sc.reqs = append(sc.reqs, g.history()...)
 	sc.reqs = append(sc.reqs, faulted)
-	sc.reqs = append(sc.reqs, goodReq(g.r, g.uid(), 1+g.r.Intn(2)))
+	// one or two following successful uploads (state left behind may only show on the second one)
+	for n := 1 + g.r.Intn(2); n > 0; n-- {
+		f := goodReq(g.r, g.uid(), 1+g.r.Intn(2))
+		if faulted.client != "" && g.r.Bool() {
+			// the same storage.Client carries on after its aborted / committed upload
+			f.parts = fileOnly(f.parts)
+			f.preamble = ""
+			f.client = "commit"
+		}
+		sc.reqs = append(sc.reqs, f)
+	}
 	return sc
 }
 
@@ -1159,6 +1176,10 @@ func main() {
 	defer hx.Flush()
 	log.SetOutput(io.Discard)
 	db.VerifSetNow(func() time.Time { return clock })
+	if os.Getenv("VERIF_C20_MISUSE") != "" {
+		runMisuse()
+		return
+	}
 	shard, _ := strconv.Atoi(os.Getenv("VERIF_SHARD"))
 	nshards, _ := strconv.Atoi(os.Getenv("VERIF_NSHARDS"))
 	if nshards <= 0 {
@@ -1263,14 +1284,23 @@ func main() {
 			tag = "nofiles"
 		case 3: // client abort over real HTTP
 			rq.parts = fileOnly(rq.parts)
+			if g.r.Chance(1, 5) {
+				rq.parts = nil // NewUpload, then Abort at once
+			}
 			rq.preamble = ""
 			rq.client = "abort"
 			tag = "clientabort"
 		case 4: // client commit over real HTTP
 			rq.parts = fileOnly(rq.parts)
+			if g.r.Chance(1, 6) {
+				rq.parts = nil // Commit without any file: "no files processed"
+				tag = "clientempty"
+			}
 			rq.preamble = ""
 			rq.client = "commit"
-			tag = "clientcommit"
+			if tag != "clientempty" {
+				tag = "clientcommit"
+			}
 		case 5: // label clash: the label insert violates the primary key when the rows are flushed
 			j := g.r.Intn(len(rq.parts))
 			if rq.parts[j].form == "file" {
@@ -1418,6 +1448,7 @@ func main() {
 	}
 
 	runIDs(g)
+	runHTTPConcFamily(g)
 	runBigFamily(g)
 }
 
